@@ -79,23 +79,23 @@ def dropTrailingZeros (l : List Nat) : List Nat := (l.reverse.dropWhile (· == 4
 
 def padLeft (n : Nat) (l : List Nat) : List Nat := List.replicate (n - l.length) 48 ++ l
 
-/-- `%g` with precision 6 of a non-zero rational (the value of a finite double) -/
-def printG (v : Rat) : List Nat :=
+/-- `%g` with precision `P` (significant digits) of a non-zero rational (the value of a finite double) -/
+def printGP (P : Nat) (v : Rat) : List Nat :=
   let neg := v < 0
   let a := rabs v
-  -- X as an integer: non-negative part `xu`, or negative `-(xd)`
+  -- X as an integer: non-negative part `xAbs`, or negative `-(xAbs)`
   let (xNeg, xAbs) : Bool × Nat :=
     if a ≥ 1 then (false, decExpUp 400 a 0) else (true, decExpDown 400 a 1)
-  -- six significant digits
-  let scaled : Rat := if xNeg then a * pow10 (xAbs + 5) else (if xAbs ≤ 5 then a * pow10 (5 - xAbs) else a / pow10 (xAbs - 5))
+  -- P significant digits
+  let scaled : Rat := if xNeg then a * pow10 (xAbs + (P - 1)) else (if xAbs ≤ P - 1 then a * pow10 (P - 1 - xAbs) else a / pow10 (xAbs - (P - 1)))
   let d0 := roundHalfEven scaled
   let (d, xNeg, xAbs) : Nat × Bool × Nat :=
-    if d0 == 1000000 then
-      (100000, if xNeg && xAbs == 1 then false else xNeg, if xNeg then xAbs - 1 else xAbs + 1)
+    if d0 == 10 ^ P then
+      (10 ^ (P - 1), if xNeg && xAbs == 1 then false else xNeg, if xNeg then xAbs - 1 else xAbs + 1)
     else (d0, xNeg, xAbs)
-  let digs := padLeft 6 (natDigits d)       -- exactly 6 digits
+  let digs := padLeft P (natDigits d)       -- exactly P digits
   let sign := if neg then [45] else []
-  if (xNeg && xAbs > 4) || (!xNeg && xAbs ≥ 6) then
+  if (xNeg && xAbs > 4) || (!xNeg && xAbs ≥ P) then
     -- scientific
     let frac := dropTrailingZeros (digs.drop 1)
     let ex := padLeft 2 (natDigits xAbs)
@@ -108,6 +108,9 @@ def printG (v : Rat) : List Nat :=
     let ip := digs.take (xAbs + 1)
     let frac := dropTrailingZeros (digs.drop (xAbs + 1))
     sign ++ ip ++ (if frac.isEmpty then [] else 46 :: frac)
+
+/-- the default stream precision -/
+def printG (v : Rat) : List Nat := printGP 6 v
 
 /-- an argument as `operator<<(CircuitInstruction)` prints it: integers in the int64 range as integers, everything else `%g` -/
 def printArg (v : Rat) : List Nat :=
@@ -167,43 +170,46 @@ def readUInt (limit : Nat) (bytes : List Nat) : Option (Nat × List Nat) :=
 def stripPrefix (p : List Nat) (l : List Nat) : Option (List Nat) :=
   if l.take p.length == p then some (l.drop p.length) else none
 
+def pauliBitsOf (c : Nat) : Option Nat :=
+  if c == 88 || c == 120 then some XB else if c == 89 || c == 121 then some (XB + ZB) else if c == 90 || c == 122 then some ZB else none
+
+/-- `read_pauli_target` after the letter: no space, then a 24-bit number -/
+def parsePauliRest (m : Nat) (rest : List Nat) : Option (Nat × List Nat) :=
+  match rest with
+  | 32 :: _ => none
+  | _ => (readUInt (2^24) rest).map fun (q, r) => (q + m, r)
+
+def parseBracketed (pre : List Nat) (flag : Nat) (bytes : List Nat) : Option (Nat × List Nat) :=
+  match stripPrefix pre bytes with
+  | none => none
+  | some r =>
+    match readUInt (2^24) r with
+    | none => none
+    | some (q, r2) =>
+      match r2 with
+      | 93 :: r3 => some (q + flag, r3)
+      | _ => none
+
 /-- `read_single_gate_target` (the first byte is present) -/
 def parseTarget (bytes : List Nat) : Option (Nat × List Nat) :=
-  let pauliBits (c : Nat) : Option Nat :=
-    if c == 88 || c == 120 then some XB else if c == 89 || c == 121 then some (XB + ZB) else if c == 90 || c == 122 then some ZB else none
-  let pauli (c : Nat) (rest : List Nat) : Option (Nat × List Nat) := do
-    let m ← pauliBits c
-    match rest with
-    | 32 :: _ => none
-    | _ =>
-      let (q, r) ← readUInt (2^24) rest
-      pure (q + m, r)
   match bytes with
   | [] => none
   | c :: rest =>
     if isDigitC c then readUInt (2^24) bytes
-    else if c == 114 then do
-      let r ← stripPrefix (bytesOf "rec[-") bytes
-      let (q, r2) ← readUInt (2^24) r
-      match r2 with
-      | 93 :: r3 => pure (q + RECB, r3)
-      | _ => none
+    else if c == 114 then parseBracketed (bytesOf "rec[-") RECB bytes
     else if c == 33 then
       match rest with
       | c2 :: rest2 =>
-        (match pauliBits c2 with
-         | some _ => (pauli c2 rest2).map fun (t, r) => (t + INV, r)
+        (match pauliBitsOf c2 with
+         | some m => (parsePauliRest m rest2).map fun (t, r) => (t + INV, r)
          | none => (readUInt (2^24) rest).map fun (t, r) => (t + INV, r))
       | [] => none
-    else if (pauliBits c).isSome then pauli c rest
-    else if c == 42 then some (COMB, rest)
-    else if c == 115 then do
-      let r ← stripPrefix (bytesOf "sweep[") bytes
-      let (q, r2) ← readUInt (2^24) r
-      match r2 with
-      | 93 :: r3 => pure (q + SWEEPB, r3)
-      | _ => none
-    else none
+    else match pauliBitsOf c with
+      | some m => parsePauliRest m rest
+      | none =>
+        if c == 42 then some (COMB, rest)
+        else if c == 115 then parseBracketed (bytesOf "sweep[") SWEEPB bytes
+        else none
 
 /-- `read_tag` after the opening bracket: unescape until `]` -/
 def parseTagBody : List Nat → Option (List Nat × List Nat)
